@@ -5,6 +5,7 @@ import IprDriver.Util
 Driver for C14.  Ops (one per line):
   kinds                       -> `K <kind> <link:arity,..|-> <accessor,..|->` for every kind of the table
   state <kind> <digits>       -> `<kind> <digits> : acc=<outcome> ...`   outcome: `!L`, `-`, `$link[.part]`, a literal, `*`
+  hist <kind> <l:c,l:c,..>    -> the same line for the state reached from the factory's by the assignments `link l := code c` in order
   seq <impl> <pattern> [view] -> `size=.. empty=.. get=[..|..] fwd=[..] bwd=[..] end=.. rend=..`
   optional <0|1>              -> `!L` or `e0`  (Optional<T>::get / util::ref<T>::get)
 Sequence patterns: one letter per slot/element — `s` an element, `p` an element whose type() raises, `u` a slot made by the
@@ -26,6 +27,14 @@ def kindLine (k : KindSpec) : String :=
 def stateLine (k : KindSpec) (ds : String) (codes : List Nat) : String :=
   let fs := (k.expected codes).map (fun p => s!"{p.1}={p.2}")
   s!"{k.name} {ds} :" ++ String.join (fs.map (" " ++ ·))
+
+def parseHist (s : String) : Option (List (Nat × Nat)) :=
+  if s == "-" then some [] else
+  (s.splitOn ",").mapM (fun a => match a.splitOn ":" with
+    | [l, c] => match l.toNat?, c.toNat? with
+      | some l, some c => some (l, c)
+      | _, _ => none
+    | _ => none)
 
 /-! sequences -/
 def showRes (pfx : String) : Res Nat → String
@@ -63,7 +72,7 @@ def objItems (pat : List Char) : List Nat := List.range pat.length
 def seqLine (impl : String) (pat : List Char) (view : String) : String :=
   match impl with
   | "ref" | "decl" => viewLine "e" (buildRef pat).1.view
-  | "warehouse" =>
+  | "warehouse" | "warehouse-product" =>
     let lead := (pat.takeWhile (· == 'u')).length
     viewLine "e" (Warehouse.build lead (List.range (pat.length - lead))).view
   | "objseq" => viewLine "e" ((objItems pat).foldl ObjSeq.pushBack ({} : ObjSeq Nat)).view
@@ -81,7 +90,8 @@ def seqLine (impl : String) (pat : List Char) (view : String) : String :=
       if impl == "homlist" then ((objItems pat).foldl ObjList.pushBack ({} : ObjList Nat)).view
       else if impl == "homseq" then ((objItems pat).foldl ObjSeq.pushBack ({} : ObjSeq Nat)).view
       else (SingletonObj.mk 0).view
-    let h : HomScope Nat Nat := ⟨⟨members, typeOfWith []⟩⟩
+    -- every enumerator has the one enumeration as its type
+    let h : HomScope Nat Nat := ⟨⟨members, if impl == "homseq" then (fun _ => .ok 0) else typeOfWith []⟩⟩
     if view == "type" then viewLine "t" h.type else viewLine "e" h.view
   | _ => "bad-op"
 
@@ -93,6 +103,13 @@ def step (_ : Unit) : List String → Unit × List String
       if codes.length == k.links.length then ((), [stateLine k ds codes]) else ((), [s!"{kind} {ds} : bad-state"])
     | none, _ => ((), [s!"{kind} {ds} : unmodelled-kind"])
     | _, _ => ((), [s!"{kind} {ds} : bad-state"])
+  | ["hist", kind, h] =>
+    match findKind kind, parseHist h with
+    | some k, some assigns =>
+      let σ := (State.initial k.links.length).run (assigns.map (fun a => (a.1, { code := a.2, target := 0 })))
+      if assigns.all (fun a => a.1 < k.links.length) then ((), [stateLine k h (σ.map (·.code))]) else ((), [s!"{kind} {h} : bad-state"])
+    | none, _ => ((), [s!"{kind} {h} : unmodelled-kind"])
+    | _, _ => ((), [s!"{kind} {h} : bad-state"])
   | ["seq", impl, pat] => ((), [s!"seq {impl} {pat} : " ++ seqLine impl (if pat == "-" then [] else pat.toList) "decl"])
   | ["seq", impl, pat, view] =>
     ((), [s!"seq {impl} {pat} {view} : " ++ seqLine impl (if pat == "-" then [] else pat.toList) view])
